@@ -171,7 +171,6 @@ impl Oplog {
         }
     }
     pub fn clean_op_log_metadata_files() {
-        remove_invalidate_oplog_file();
         remove_op_log_file();
         if let Ok(entries) = read_dir(get_op_log_dir_name()) {
             for entry in entries {
@@ -190,6 +189,8 @@ impl Oplog {
                 }
             }
         }
+        // The flag goes last: until every op-log file is gone a restart must still see it invalid
+        remove_invalidate_oplog_file();
     }
     pub fn get_op_log_file_name() -> String {
         format!("{dir}/{sufix}", dir = get_dir_name(), sufix = OP_LOG_FILE)
